@@ -258,7 +258,7 @@ func (b *c31Base) judge(c *core.Ctx, caseID, route, mut string, ticket []byte, w
 			c.Count("empty_ticket_full_handshake", 1)
 			return
 		}
-		c.Violation("harness:ticket_not_presented:"+route+":"+vk, "the ClientHello on the wire does not carry the prepared ticket", caseID, obs)
+		undecided(c, "harness:ticket_not_presented:"+route+":"+vk, "the ClientHello on the wire does not carry the prepared ticket", caseID, obs)
 		return
 	}
 	mclass := mut
@@ -882,7 +882,7 @@ func c31AutoRotation(c *core.Ctx) {
 		attacker := &c31Base{Spec: spec, Seed: seed, Session: as, Ticket: ztls.VerifSessionTicket(as), Vers: ass.Version, Suite: ass.Suite}
 		plain := openTicket(attacker.Ticket, own)
 		if plain == nil {
-			c.Violation("harness:cannot_open_own_ticket", "ticket layout assumption does not hold", label, spec)
+			undecided(c, "harness:cannot_open_own_ticket", "ticket layout assumption does not hold", label, spec)
 			continue
 		}
 		hostile := []struct {
@@ -1158,7 +1158,7 @@ func c31Mutations(c *core.Ctx, spec c31Spec, rep, si, part int) {
 	}
 	if part == 0 {
 		if nflip != len(b.Ticket) {
-			c.Violation("harness:flip_enumeration_incomplete", fmt.Sprintf("%d of %d", nflip, len(b.Ticket)), label, spec)
+			undecided(c, "harness:flip_enumeration_incomplete", fmt.Sprintf("%d of %d", nflip, len(b.Ticket)), label, spec)
 		}
 		c.Exhaustive(fmt.Sprintf("single_byte_flip_positions:%s(len %d)", label, len(b.Ticket)), int64(nflip))
 	} else {
